@@ -42,6 +42,7 @@ static void setup(Runner &r, const Tier &t) {
     g_alpha = alphabet(); g_cases.clear(); g_fonts = { "small.ttf", "Padauk.ttf" };
     if (t.thorough) { g_fonts.push_back("Scheherazadegr.ttf"); g_fonts.push_back("charis_r_gr.ttf"); g_fonts.push_back("Awami_test.ttf"); }
     std::string smin = gen_dir() + "/s_min.ttf"; if (access(smin.c_str(), R_OK) == 0) g_fonts.push_back(smin);
+    { std::string ce = gen_dir() + "/s_full_cmapedge.ttf"; if (access(ce.c_str(), R_OK) == 0) g_fonts.push_back(ce); }      // a font whose cmap maps U+0000 to a glyph (as Scheherazade and Awami do)
     for (int f = 0; f < int(g_fonts.size()); ++f) for (int enc = 0; enc < 3; ++enc) for (int len = 0; len <= 3; ++len) {
         int n = 1; for (int k = 0; k < len; ++k) n *= NA;
         for (int v = 0; v < n; ++v) for (int nm = 1; nm < 5; ++nm) for (int dir = 0; dir < 2; ++dir) {
